@@ -435,10 +435,46 @@ def pub_property(ctx, pid, prop_file, model_files, judge, family_filter=None, ru
         i, f = relevant[0]
         ctx.violation("%s:replay-drift" % pid, "the model of package pub no longer replays the recorded run",
                       {"kind": "correspondence", "projection": "%s replay (classes %s)" % (pid, sorted(rel)), "index": i, "detail": f, "run": runs[i], "count": len(relevant)}, nofail=True)
+    if judge.get("extra"):
+        found = judge["extra"](ctx) or found
     if not pr["built"] and not found:
         ctx.violation("%s:proof:%s" % (pid, pr.get("broken_lemma")), "theorem no longer checks",
                       {"kind": "proof", "file": pr.get("broken_file"), "theorem": pr.get("broken_lemma"), "error": (pr.get("error") or pr.get("out", ""))[-3000:]}, nofail=True)
     return finish(ctx, "proof")
+
+
+def race_harness(ctx, sub, tag):
+    """Build the harness with the race detector and run one of its subcommands; returns (ran, summary, output)."""
+    renv = dict(GOENV)
+    renv["CGO_ENABLED"] = "1"
+    rc, out, dt = sh(["go", "build", "-race", "-tags", "verif", "-o", "../bin/harness-race", "."], cwd=os.path.join(ROOT, "tools", "harness"), timeout=900, env=renv)
+    if rc != 0:
+        return False, None, out
+    rdir = os.path.join(ctx.rundir, tag)
+    os.makedirs(rdir, exist_ok=True)
+    rc2, out2, dt2 = sh([os.path.join(ROOT, "tools", "bin", "harness-race"), sub, "-out", rdir, "-seed", str(ctx.seed), "-tier", ctx.tier], timeout=1800)
+    ctx.note("race-detector run %s rc=%d (%.1fs) %s" % (sub, rc2, dt2, out2.strip()[-100:]))
+    summ = None
+    if os.path.exists(os.path.join(rdir, "summary.json")):
+        summ = json.load(open(os.path.join(rdir, "summary.json")))
+    return True, summ, out2
+
+
+def c20_concurrent(ctx):
+    ran, summ, out = race_harness(ctx, "c20", "concurrent")
+    if not ran:
+        ctx.coverage["concurrent_service"] = {"ran": False, "why": out[-300:]}
+        return False
+    found = False
+    ctx.coverage["concurrent_service"] = {"ran": True, "data_race_reports": out.count("WARNING: DATA RACE"), "distribution": (summ or {}).get("distribution")}
+    for v in (summ or {}).get("violations", []):
+        if ctx.violation(v["signature"], v["what"], {"kind": "concurrent-requests", "replay": v["replay"]}):
+            found = True
+    if "WARNING: DATA RACE" in out and not found:
+        i = out.index("WARNING: DATA RACE")
+        if ctx.violation("C20:concurrent:data-race", "the race detector reports a data race while responses are served concurrently", {"kind": "race", "output": out[i:i + 4000]}):
+            found = True
+    return found
 
 
 SHAPE = {"quick": ["-families", "shape", "-n", "1", "-faults", "none", "-maxruns", "40000", "-shards", "8"],
@@ -502,7 +538,7 @@ def check_C20(ctx):
     return pub_property(ctx, "C20", "Properties/C20.v",
                         ["Pub/BaseActor.v (GetInbox, GetOutbox, handler), Pub/Util.v (dedupe_ordered_items, clear_sensitive), Base/Time.v (http_date), Pub/Monitors.v serve_step",
                          "modelled, not verified: SHA-256 / base64 (the harness recomputes them over the captured bytes), encoding/json marshalling (bodies are compared as JSON values), time.Format (compared on every generated instant), the top-level @context (C01)"],
-                        {"monitors": ["serve_bad"], "classify": classify,
+                        {"monitors": ["serve_bad"], "classify": classify, "extra": c20_concurrent,
                          "rule": "random pages with 0..11 items as IRIs or embedded values with duplicates anywhere, a stored value of every vocabulary type, Tombstones, hidden recipients at object depth 0..2, random clock instants; every single fault"},
                         family_filter=lambda f: f.startswith("get:"),
                         run_specs=[("get", ["-families", "get,gettypes", "-n", n, "-faults", "single", "-maxruns", "6000"])])
@@ -830,7 +866,7 @@ def check_C01(ctx):
     return generic_table_check(ctx, "C01", "Properties/C01.v", ["c01"], "C01Cases.v",
                                ["Streams/CodecInst.vo", "Gen/TablesShipped.vo"],
                                ["Streams/Codec.v (decode + encode as one pass, over the translator's tables), Streams/CodecInst.v (literal codecs as serialise (deserialise x)), Streams/Literals.v (dateTime, duration parsers)",
-                                "modelled, not verified: @context aliases (plain contexts only) and the rebuilt @context value (judged on the real output only: not part of the model); net/url parsing and URL.String() (url_ok is a conservative character test, norm_iri the identity: the generator stays inside); float formatting (integers only); the literal codecs are Section parameters of the theorems: what `lexical` demands of them is checked for the shipped instance on the generated scalars by the correspondence, not proved for all strings",
+                                "the rebuilt @context: cx_doc (Streams/Codec.v) gives the vocabularies a document uses - its type's, those of every property holding something, those of the values decoded as embedded types - and is compared with the @context of every real output; modelled, not verified: @context aliases (plain contexts only); net/url parsing and URL.String() (url_ok is a conservative character test, norm_iri the identity: the generator stays inside); float formatting (integers only); the literal codecs are Section parameters of the theorems: what `lexical` demands of them is checked for the shipped instance on the generated scalars by the correspondence, not proved for all strings",
                                 "partial: idempotence of the round trip is judged on the real code for every generated document, not proved for the model"],
                                interpret)
 
